@@ -113,74 +113,94 @@ Proof.
   destruct (id =? k); simpl; [lia|]. rewrite IH. lia.
 Qed.
 
-(* ---------- the invariant tying the memdb to the store ---------- *)
-Record Inv (s : state) : Prop := mkInv {
-  i_data : m_data (st_mem s) = s_data (st_head s);
-  i_sorted : nsorted (m_data (st_mem s));
-  i_ids : m_ids (st_mem s) = map fst (m_data (st_mem s));
-  i_cnt : forall f, cget f (m_fields (st_mem s)) = tot f (m_data (st_mem s));
-  i_nodup : NoDup (map fst (m_fields (st_mem s)));
-  i_meta : forall k, k < 3 -> mget k (st_mmeta s) = mget k (s_meta (st_head s));
+(* ---------- a memdb that mirrors the annotations [d] of a version ---------- *)
+Record MInv (m : memdb) (d : ndata) : Prop := mkMInv {
+  mi_data : m_data m = d;
+  mi_sorted : nsorted (m_data m);
+  mi_ids : m_ids m = map fst (m_data m);
+  mi_cnt : forall f, cget f (m_fields m) = tot f (m_data m);
+  mi_nodup : NoDup (map fst (m_fields m));
+  mi_ftimes : m_ftdirty m = false -> m_ftimes m = ft_of (m_data m);
 }.
 
-Lemma inv_init : Inv init_state.
-Proof. constructor; simpl; try reflexivity; try constructor. Qed.
+Lemma minv_sorted m d : MInv m d -> nsorted d.
+Proof. intros [H1 H2 _ _ _ _]. now rewrite <- H1. Qed.
 
-Lemma storeAndUpdate_inv s id new0 user conds replace t s' :
-  Inv s -> storeAndUpdate repaired s id new0 user conds replace t = Ok s' -> Inv s'.
+Lemma mem_put_minv m d id orig1 new' m' :
+  MInv m d -> mem_put repaired m id (nget id d) orig1 new' = Ok m' -> MInv m' (nset id new' d).
 Proof.
-  intros I. unfold storeAndUpdate.
-  destruct (omem (fuser s_bodyid) new0 || omem (ftime s_bodyid) new0); [discriminate|].
-  destruct (updateJSON user conds replace t (nget id (s_data (st_head s))) new0) as [orig1 new'].
-  cbn [v_cnt repaired].
-  destruct (set_ftimes new' (m_ftimes (st_mem s))) as [ft| |]; cbn [res_bind]; try discriminate.
-  destruct I as [I1 I2 I3 I4 I5 I6].
+  intros [I1 I2 I3 I4 I5 I7]. unfold mem_put. cbn [v_cnt v_ftime repaired].
   rewrite I3, (addBodyID_sorted _ id I2). cbn [res_bind].
-  intro H; apply Ok_inj in H; subst s'. constructor; cbn.
+  intro H; apply Ok_inj in H; subst m'. constructor; cbn.
   - now rewrite I1.
   - now apply nset_sorted.
   - now rewrite keys_nset.
   - intro f. rewrite !cget_fold_cadd, I4, (tot_nset f id new' _ I2), <- I1.
-    destruct (nget id (m_data (st_mem s))); cbn [occ]; lia.
+    destruct (nget id (m_data m)); cbn [occ]; lia.
   - apply nodup_fold_cadd, nodup_fold_cadd, I5.
-  - exact I6.
+  - discriminate.
 Qed.
 
-Lemma putData_inv s key body valid user conds replace t s' :
-  Inv s -> putData repaired s key body valid user conds replace t = Ok s' -> Inv s'.
+Lemma ndel_absent id (d : ndata) : nget id d = None -> ndel id d = d.
 Proof.
-  intro I. unfold putData.
-  destruct (st_locked s); [discriminate|]. destruct (negb (nonempty user)); [discriminate|].
-  destruct (key =? 0); [discriminate|]. destruct (negb valid); [discriminate|].
-  destruct (oget s_bodyid (obj_of_list body)) as [[| | z | | | |]|]; try discriminate.
-  destruct ((0 <=? z)%Z && (z <=? Z.of_N max_u64)%Z && (Z.to_N z =? key)); [|discriminate].
-  now apply storeAndUpdate_inv.
+  induction d as [|[k v] r IH]; simpl; [reflexivity|].
+  destruct (id =? k); [discriminate|]. intro H. now rewrite IH.
 Qed.
 
-Lemma putKVs_inv items user conds replace : forall s,
-  Inv s -> Inv (fst (putKVs repaired s items user conds replace)).
+Lemma mem_del_minv m d id m' : MInv m d -> mem_del repaired m id = Ok m' -> MInv m' (ndel id d).
 Proof.
-  induction items as [|it r IH]; intros s I; simpl; [exact I|].
-  destruct (putData repaired s (kv_key it) (kv_body it) (kv_valid it) user conds replace (kv_time it)) eqn:E; simpl; try exact I.
-  apply IH. eapply putData_inv; eauto.
-Qed.
-
-Lemma deleteData_inv s id s' : Inv s -> deleteData repaired s id = Ok s' -> Inv s'.
-Proof.
-  intros I. unfold deleteData. destruct (st_locked s); [discriminate|].
-  destruct I as [I1 I2 I3 I4 I5 I6].
-  destruct (nget id (m_data (st_mem s))) as [o|] eqn:G.
+  intros [I1 I2 I3 I4 I5 I7]. unfold mem_del.
+  destruct (nget id (m_data m)) as [o|] eqn:G.
   - rewrite I3, (deleteBodyID_sorted repaired _ id eq_refl I2). cbn [res_bind].
-    intro H; apply Ok_inj in H; subst s'. constructor; cbn.
+    intro H; apply Ok_inj in H; subst m'. constructor; cbn.
     + now rewrite I1.
     + now apply ndel_sorted.
     + now rewrite keys_ndel.
     + intro f. rewrite cget_fold_cadd, I4, tot_ndel, G. lia.
     + now apply nodup_fold_cadd.
-    + exact I6.
-  - intro H; apply Ok_inj in H; subst s'. constructor; cbn; try assumption.
-    rewrite <- I1. clear - G. induction (m_data (st_mem s)) as [|[k v] r IH]; simpl in *; [reflexivity|].
-    destruct (id =? k); [discriminate|]. now rewrite <- IH.
+    + discriminate.
+  - intro H; apply Ok_inj in H; subst m'. rewrite <- I1, (ndel_absent _ _ G). now constructor.
+Qed.
+
+Lemma loadMemDB_minv d : nsorted d -> MInv (loadMemDB d) d.
+Proof.
+  intro S. unfold loadMemDB. rewrite (fold_nset_sorted d S). constructor; cbn.
+  - reflexivity.
+  - exact S.
+  - now apply sort_ids_sorted.
+  - intro f. rewrite scan_counts_from, cget_scan_from. reflexivity.
+  - rewrite scan_counts_from. apply nodup_scan_from. constructor.
+  - reflexivity.
+Qed.
+
+(* PutData on a version with / without a memdb *)
+Lemma put_some m st sch key body vd user conds replace t om' st' :
+  MInv m (s_data st) -> put repaired (Some m) st sch key body vd user conds replace t = Ok (om', st') ->
+  exists m', om' = Some m' /\ MInv m' (s_data st') /\ s_meta st' = s_meta st.
+Proof.
+  intros I. unfold put.
+  destruct (negb (nonempty user)); [discriminate|]. destruct (key =? 0); [discriminate|].
+  match goal with |- context [negb ?v] => destruct (negb v); [discriminate|] end.
+  destruct (oget s_bodyid (obj_of_list body)) as [[| | z | | | |]|]; try discriminate.
+  destruct ((0 <=? z)%Z && (z <=? Z.of_N max_u64)%Z && (Z.to_N z =? key)); [|discriminate].
+  unfold sau. destruct (omem _ _ || omem _ _); [discriminate|]. destruct (bad_stamp _); [discriminate|].
+  destruct (updateJSON user conds replace t (nget key (s_data st)) (obj_of_list body)) as [orig1 new'].
+  destruct (mem_put repaired m key (nget key (s_data st)) orig1 new') as [m'| |] eqn:E; cbn [res_bind]; try discriminate.
+  intro H; apply Ok_inj in H; inversion H; subst. exists m'. split; [reflexivity|]. split; [|reflexivity].
+  cbn. eapply mem_put_minv; eauto.
+Qed.
+Lemma put_none st sch key body vd user conds replace t om' st' :
+  nsorted (s_data st) -> put repaired None st sch key body vd user conds replace t = Ok (om', st') ->
+  om' = None /\ nsorted (s_data st') /\ s_meta st' = s_meta st.
+Proof.
+  intros S. unfold put.
+  destruct (negb (nonempty user)); [discriminate|]. destruct (key =? 0); [discriminate|].
+  match goal with |- context [negb ?v] => destruct (negb v); [discriminate|] end.
+  destruct (oget s_bodyid (obj_of_list body)) as [[| | z | | | |]|]; try discriminate.
+  destruct ((0 <=? z)%Z && (z <=? Z.of_N max_u64)%Z && (Z.to_N z =? key)); [|discriminate].
+  unfold sau. destruct (omem _ _ || omem _ _); [discriminate|]. destruct (bad_stamp _); [discriminate|].
+  destruct (updateJSON user conds replace t (nget key (s_data st)) (obj_of_list body)) as [orig1 new'].
+  intro H; apply Ok_inj in H; inversion H; subst. split; [reflexivity|]. split; [|reflexivity]. cbn. now apply nset_sorted.
 Qed.
 
 Lemma mget_mset k k' v m : mget k (mset k' v m) = if k =? k' then Some v else mget k m.
@@ -205,53 +225,153 @@ Proof.
     repeat rewrite mget_mset; destruct C as [-> | [-> | ->]]; simpl; congruence.
 Qed.
 
-Lemma loadMemDB_inv d m : nsorted d -> loadMemDB d = Ok m ->
-  m_data m = d /\ m_ids m = map fst d /\ m_fields m = scan_counts d.
+
+(* ---------- versions by reference ---------- *)
+Definition vs_sorted (v : vstore) : Prop := nsorted (s_data v).
+
+Lemma nth_rev_cons {A} (h : A) ps a : (a < length ps)%nat -> nth_error (rev (h :: ps)) a = nth_error (rev ps) a.
+Proof. intro H. simpl. apply nth_error_app1. now rewrite rev_length. Qed.
+Lemma nth_rev_head {A} (h : A) ps : nth_error (rev (h :: ps)) (length ps) = Some h.
+Proof. simpl. rewrite nth_error_app2 by (rewrite rev_length; lia). now rewrite rev_length, Nat.sub_diag. Qed.
+Lemma nth_rev_some_lt {A} (l : list A) a x : nth_error (rev l) a = Some x -> (a < length l)%nat.
+Proof. intro H. rewrite <- rev_length. apply nth_error_Some. congruence. Qed.
+
+Lemma nth_rev_grow {A} (h : A) l a x : nth_error (rev l) a = Some x -> nth_error (rev (h :: l)) a = Some x.
 Proof.
-  intros S. unfold loadMemDB. rewrite (fold_nset_sorted d S).
-  destruct (init_ftimes d []); cbn [res_bind]; try discriminate.
-  intro H; apply Ok_inj in H; subst m. cbn. rewrite sort_ids_sorted by exact S. auto.
+  intro H. simpl. rewrite nth_error_app1; [exact H|]. rewrite rev_length. eapply nth_rev_some_lt; eauto.
 Qed.
 
-Lemma reload_inv s s' : Inv s -> reload repaired s = Ok s' -> Inv s' /\ st_head s' = st_head s /\ st_parents s' = st_parents s /\ st_locked s' = st_locked s.
+Lemma vref_eqb_eq a b : vref_eqb a b = true <-> a = b.
 Proof.
-  intros [I1 I2 I3 I4 I5 I6]. unfold reload.
-  destruct (loadMemDB (s_data (st_head s))) as [m| |] eqn:L; cbn [res_bind]; try discriminate.
-  intro H; apply Ok_inj in H; subst s'. rewrite <- I1 in L.
-  destruct (loadMemDB_inv _ _ I2 L) as (D & Hi & F). split; [|auto].
-  constructor; cbn.
-  - now rewrite D.
-  - now rewrite D.
-  - now rewrite Hi, D.
-  - intro f. rewrite F, D, scan_counts_from, cget_scan_from. reflexivity.
-  - rewrite F, scan_counts_from. apply nodup_scan_from. constructor.
+  destruct a, b; simpl; try (split; [discriminate | intro H; inversion H]);
+    rewrite Nat.eqb_eq; split; [congruence | intro H; now inversion H | congruence | intro H; now inversion H].
+Qed.
+
+(* ---------- the invariant ---------- *)
+Record Inv (s : state) : Prop := mkInv {
+  j_mem : MInv (st_mem s) (s_data (st_head s));
+  j_meta : forall k, k < 3 -> mget k (st_mmeta s) = mget k (s_meta (st_head s));
+  j_compiled : forall b, st_compiled s = Some b -> mget k_json_schema (s_meta (st_head s)) = Some b;
+  j_parents : Forall vs_sorted (st_parents s);
+  j_branch : forall b, st_branch s = Some b -> vs_sorted (b_head b) /\ Forall vs_sorted (b_parents b);
+  j_bmem : forall m, st_bmem s = Some m -> exists b, st_branch s = Some b /\ MInv m (s_data (b_head b));
+  j_static : forall ref m, static_get ref (st_static s) = Some m ->
+               exists v, resolve s ref = Some v /\ committed s ref = true /\ MInv m (s_data v);
+}.
+
+Lemma inv_init : Inv init_state.
+Proof.
+  constructor; simpl; try reflexivity; try discriminate; try (now constructor).
+  apply (loadMemDB_minv []). constructor.
+Qed.
+
+(* what stays put when a request changes a state: committed versions *)
+Definition stable (s s' : state) : Prop :=
+  forall ref v, resolve s ref = Some v -> committed s ref = true ->
+                resolve s' ref = Some v /\ committed s' ref = true.
+
+Lemma static_stable s s' : stable s s' -> st_static s' = st_static s ->
+  (forall ref m, static_get ref (st_static s) = Some m ->
+     exists v, resolve s ref = Some v /\ committed s ref = true /\ MInv m (s_data v)) ->
+  forall ref m, static_get ref (st_static s') = Some m ->
+     exists v, resolve s' ref = Some v /\ committed s' ref = true /\ MInv m (s_data v).
+Proof.
+  intros St E H ref m G. rewrite E in G. destruct (H ref m G) as (v & R & C & M).
+  destruct (St ref v R C). exists v. auto.
+Qed.
+
+(* a change confined to the open head of master *)
+Lemma stable_master_head s s' :
+  st_locked s = false -> st_parents s' = st_parents s -> st_branch s' = st_branch s -> stable s s'.
+Proof.
+  intros U P B [a|i] v R C; unfold resolve, committed in *; rewrite ?P, ?B in *.
+  - rewrite U, andb_false_r, orb_false_r in C. pose proof C as C'. apply Nat.ltb_lt in C'.
+    rewrite nth_rev_cons in R by exact C'. rewrite nth_rev_cons by exact C'. rewrite C. auto.
+  - auto.
+Qed.
+Lemma stable_branch_head s s' b b' :
+  st_branch s = Some b -> b_locked b = false -> st_branch s' = Some b' -> b_parents b' = b_parents b ->
+  st_head s' = st_head s -> st_parents s' = st_parents s -> st_locked s' = st_locked s -> stable s s'.
+Proof.
+  intros B U B' P H1 H2 H3 [a|i] v R C; unfold resolve, committed in *; rewrite ?H1, ?H2, ?H3, ?B, ?B' in *; [auto|].
+  rewrite P. rewrite U, andb_false_r, orb_false_r in C. pose proof C as C'. apply Nat.ltb_lt in C'.
+  rewrite nth_rev_cons in R by exact C'. rewrite nth_rev_cons by (rewrite ?P; exact C'). rewrite C. auto.
+Qed.
+
+Lemma resolve_sorted s ref v : Inv s -> resolve s ref = Some v -> vs_sorted v.
+Proof.
+  intros I R. destruct ref as [a|i]; unfold resolve in R.
+  - apply nth_error_In in R. rewrite <- in_rev in R. destruct R as [<- | R].
+    + eapply minv_sorted. apply (j_mem s I).
+    + pose proof (j_parents s I) as F. rewrite Forall_forall in F. auto.
+  - destruct (st_branch s) as [b|] eqn:B; [|discriminate].
+    destruct (j_branch s I b B) as [Hh Hp]. apply nth_error_In in R. rewrite <- in_rev in R. destruct R as [<- | R]; [exact Hh|].
+    rewrite Forall_forall in Hp. auto.
+Qed.
+
+Lemma putData_inv s key body vd user conds replace t s' :
+  Inv s -> putData repaired s key body vd user conds replace t = Ok s' -> Inv s'.
+Proof.
+  intros I. unfold putData. destruct (st_locked s) eqn:U; [discriminate|].
+  destruct (put repaired (Some (st_mem s)) (st_head s) (schema_in_force s) key body vd user conds replace t)
+    as [[om st']| |] eqn:E; try discriminate.
+  destruct (put_some _ _ _ _ _ _ _ _ _ _ _ _ (j_mem s I) E) as (m' & -> & M & Me).
+  intro H; apply Ok_inj in H; subst s'. destruct I as [J1 J2 J3 J4 J5 J6 J7].
+  constructor; try (cbn; assumption).
+  - cbn. intros k Hk. rewrite Me. auto.
+  - cbn. intros b Hb. rewrite Me. auto.
+  - apply (static_stable s); [apply stable_master_head; auto | reflexivity | exact J7].
+Qed.
+
+Lemma putKVs_inv items user conds replace : forall s,
+  Inv s -> Inv (fst (putKVs repaired s items user conds replace)).
+Proof.
+  induction items as [|it r IH]; intros s I; simpl; [exact I|].
+  destruct (putData repaired s (kv_key it) (kv_body it) (kv_vd it) user conds replace (kv_time it)) eqn:E; simpl; try exact I.
+  apply IH. eapply putData_inv; eauto.
+Qed.
+
+Lemma deleteData_inv s id s' : Inv s -> deleteData repaired s id = Ok s' -> Inv s'.
+Proof.
+  intros I. unfold deleteData. destruct (st_locked s) eqn:U; [discriminate|].
+  destruct (mem_del repaired (st_mem s) id) as [m| |] eqn:E; cbn [res_bind]; try discriminate.
+  intro H; apply Ok_inj in H; subst s'. pose proof (mem_del_minv _ _ _ _ (j_mem s I) E) as M.
+  destruct I as [J1 J2 J3 J4 J5 J6 J7]. constructor; try (cbn; assumption).
+  apply (static_stable s); [apply stable_master_head; auto | reflexivity | exact J7].
+Qed.
+
+Lemma static_build_spec (P : vref -> memdb -> Prop) (f : vref -> option memdb) l :
+  (forall ref m, f ref = Some m -> P ref m) ->
+  forall ref m, static_get ref (fold_right (fun r acc => match f r with Some m => (r, m) :: acc | None => acc end) [] l) = Some m ->
+  P ref m.
+Proof.
+  intros H. induction l as [|x r IH]; intros ref m G; simpl in G; [discriminate|].
+  destruct (f x) as [mx|] eqn:E; [|auto].
+  unfold static_get in G. simpl in G. destruct (vref_eqb ref x) eqn:Q.
+  - apply vref_eqb_eq in Q. subst x. inversion G; subst. auto.
+  - apply IH. exact G.
+Qed.
+
+Lemma reload_inv s : Inv s -> Inv (reload repaired s).
+Proof.
+  intros I. pose proof I as [J1 J2 J3 J4 J5 J6 J7].
+  unfold reload. cbn [v_binit v_ftime repaired andb]. constructor; cbn [st_mem st_mmeta st_compiled st_head st_parents st_locked st_branch st_bmem st_static].
+  - apply loadMemDB_minv. eapply minv_sorted; eauto.
   - intros k Hk. now apply load_meta_get.
+  - auto.
+  - exact J4.
+  - exact J5.
+  - intros m Hm. destruct (cfg_branch (st_cfg s)); [|discriminate].
+    destruct (st_branch s) as [b|] eqn:B; [|discriminate]. inversion Hm; subst.
+    exists b. split; [reflexivity|]. apply loadMemDB_minv. now destruct (J5 b eq_refl).
+  - apply (static_build_spec (fun ref m => exists v, resolve (reload repaired s) ref = Some v /\ committed (reload repaired s) ref = true /\ MInv m (s_data v))).
+    intros ref m Hm. unfold static_entry in Hm. cbn [v_binit repaired andb] in Hm.
+    destruct (resolve s ref) as [v|] eqn:R; [|discriminate].
+    destruct (committed s ref) eqn:C; [|discriminate]. inversion Hm; subst.
+    exists v. split; [exact R|]. split; [exact C|]. unfold load_static. cbn [v_ftime repaired].
+    apply loadMemDB_minv. eapply resolve_sorted; eauto.
 Qed.
 
-Lemma step_inv s o : Inv s -> Inv (fst (step repaired s o)).
-Proof.
-  intro I. destruct o; simpl.
-  - destruct (putData repaired s key body valid user conds replace timeStr) eqn:E; simpl; try exact I.
-    eapply putData_inv; eauto.
-  - destruct (st_locked s); [exact I|]. now apply putKVs_inv.
-  - destruct (deleteData repaired s key) eqn:E; simpl; try exact I. eapply deleteData_inv; eauto.
-  - destruct (st_locked s || (3 <=? kind)); [exact I|]. destruct I as [I1 I2 I3 I4 I5 I6].
-    constructor; cbn; try assumption. intros k Hk. rewrite !mget_mset, I6 by exact Hk. reflexivity.
-  - destruct (st_locked s || (3 <=? kind)); [exact I|]. destruct I as [I1 I2 I3 I4 I5 I6].
-    constructor; cbn; try assumption. intros k Hk. rewrite !mget_mdel, I6 by exact Hk. reflexivity.
-  - destruct (st_locked s); [exact I|]. destruct I; constructor; cbn; assumption.
-  - destruct (st_locked s); [|exact I]. destruct I; constructor; cbn; assumption.
-  - destruct (reload repaired s) eqn:E; simpl; try exact I. now destruct (reload_inv _ _ I E).
-Qed.
-
-Lemma run_inv h : forall s s', Inv s -> run repaired s h = Ok s' -> Inv s'.
-Proof.
-  induction h as [|o r IH]; intros s s' I; simpl.
-  - intro H; apply Ok_inj in H; now subst.
-  - pose proof (step_inv s o I) as I'. destruct (step repaired s o) as [s1 [[]| |]]; simpl in I'; try discriminate; eauto.
-Qed.
-
-(* ---------- both read paths on a state satisfying the invariant ---------- *)
 Lemma rres_equiv_refl r : rres_equiv r r.
 Proof. destruct r; constructor; auto. Qed.
 
@@ -301,27 +421,173 @@ Proof.
   destruct (f q); simpl in *; intuition.
 Qed.
 
+(* requests on the head of the second branch *)
+Lemma step_branch_inv s o : Inv s -> Inv (fst (step_branch repaired s o)).
+Proof.
+  intro I. unfold step_branch. destruct (st_branch s) as [b|] eqn:B; [|exact I].
+  pose proof I as [J1 J2 J3 J4 J5 J6 J7]. destruct (J5 b B) as [Sh Sp].
+  destruct o; try exact I.
+  - (* POST key *)
+    destruct (b_locked b) eqn:U; [exact I|].
+    destruct (put repaired (st_bmem s) (b_head b) (mget k_json_schema (s_meta (b_head b))) key body vd user conds replace timeStr)
+      as [[bm st']| |] eqn:E; try exact I.
+    cbn [fst].
+    assert (St : stable s (with_branch s (Some (mkB st' (b_parents b) false)) bm))
+      by (apply (stable_branch_head s _ b (mkB st' (b_parents b) false)); [exact B | exact U | reflexivity..]).
+    destruct (st_bmem s) as [m|] eqn:BM.
+    + destruct (J6 m eq_refl) as (b0 & B0 & M). rewrite B in B0. inversion B0; subst b0.
+      destruct (put_some _ _ _ _ _ _ _ _ _ _ _ _ M E) as (m' & -> & M' & Me).
+      constructor; try (cbn; assumption).
+      * cbn. intros b1 Hb. inversion Hb; subst. cbn. split; [eapply minv_sorted; eauto | exact Sp].
+      * cbn. intros m1 Hm. inversion Hm; subst. eexists. split; [reflexivity | exact M'].
+      * apply (static_stable s); [exact St | reflexivity | exact J7].
+    + destruct (put_none _ _ _ _ _ _ _ _ _ _ _ Sh E) as (-> & S' & Me).
+      constructor; try (cbn; assumption).
+      * cbn. intros b1 Hb. inversion Hb; subst. cbn. split; assumption.
+      * cbn. discriminate.
+      * apply (static_stable s); [exact St | reflexivity | exact J7].
+  - (* DELETE key *)
+    destruct (b_locked b) eqn:U; [exact I|].
+    destruct (st_bmem s) as [m|] eqn:BM.
+    + destruct (J6 m eq_refl) as (b0 & B0 & M). rewrite B in B0. inversion B0; subst b0.
+      destruct (mem_del repaired m key) as [m'| |] eqn:E; try exact I. cbn [fst].
+      pose proof (mem_del_minv _ _ _ _ M E) as M'.
+      constructor; try (cbn; assumption).
+      * cbn. intros b1 Hb. inversion Hb; subst. cbn. split; [eapply minv_sorted; eauto | exact Sp].
+      * cbn. intros m1 Hm. inversion Hm; subst. eexists. split; [reflexivity | exact M'].
+      * apply (static_stable s); [eapply (stable_branch_head s _ b); [exact B | exact U | reflexivity..] | reflexivity | exact J7].
+    + cbn [fst]. constructor; try (cbn; assumption).
+      * cbn. intros b1 Hb. inversion Hb; subst. cbn. split; [now apply ndel_sorted | exact Sp].
+      * cbn. discriminate.
+      * apply (static_stable s); [eapply (stable_branch_head s _ b); [exact B | exact U | reflexivity..] | reflexivity | exact J7].
+  - (* POST schema *)
+    destruct (b_locked b || (3 <=? kind)) eqn:U; [exact I|]. apply orb_false_elim in U as [U _]. cbn [fst].
+    constructor; try (cbn; assumption).
+    + cbn. intros b1 Hb. inversion Hb; subst. cbn. split; assumption.
+    + cbn. intros m Hm. destruct (J6 m Hm) as (b0 & B0 & M). rewrite B in B0. inversion B0; subst b0.
+      eexists. split; [reflexivity | exact M].
+    + apply (static_stable s); [eapply (stable_branch_head s _ b); [exact B | exact U | reflexivity..] | reflexivity | exact J7].
+  - (* DELETE schema *)
+    destruct (b_locked b || (3 <=? kind)) eqn:U; [exact I|]. apply orb_false_elim in U as [U _]. cbn [fst].
+    constructor; try (cbn; assumption).
+    + cbn. intros b1 Hb. inversion Hb; subst. cbn. split; assumption.
+    + cbn. intros m Hm. destruct (J6 m Hm) as (b0 & B0 & M). rewrite B in B0. inversion B0; subst b0.
+      eexists. split; [reflexivity | exact M].
+    + apply (static_stable s); [eapply (stable_branch_head s _ b); [exact B | exact U | reflexivity..] | reflexivity | exact J7].
+  - (* commit *)
+    destruct (b_locked b) eqn:U; [exact I|]. cbn [fst].
+    constructor; try (cbn; assumption).
+    + cbn. intros b1 Hb. inversion Hb; subst. cbn. split; assumption.
+    + cbn. intros m Hm. destruct (J6 m Hm) as (b0 & B0 & M). rewrite B in B0. inversion B0; subst b0.
+      eexists. split; [reflexivity | exact M].
+    + apply (static_stable s); [|reflexivity | exact J7].
+      intros [a|i] v R C; unfold resolve, committed in *;
+        cbn [with_branch st_branch st_head st_parents st_locked]; [auto|].
+      rewrite B in *. cbn [b_head b_parents b_locked]. split; [exact R|].
+      rewrite U, andb_false_r, orb_false_r in C. rewrite C. reflexivity.
+  - (* newversion *)
+    destruct (b_locked b) eqn:U; [|exact I]. cbn [fst].
+    constructor; try (cbn; assumption).
+    + cbn. intros b1 Hb. inversion Hb; subst. cbn. split; [assumption | now constructor].
+    + cbn. intros m Hm. destruct (J6 m Hm) as (b0 & B0 & M). rewrite B in B0. inversion B0; subst b0.
+      eexists. split; [reflexivity | exact M].
+    + apply (static_stable s); [|reflexivity | exact J7].
+      intros [a|i] v R C; unfold resolve, committed in *;
+        cbn [with_branch st_branch st_head st_parents st_locked]; [auto|]. rewrite B in *. cbn [b_head b_parents b_locked length].
+      pose proof (nth_rev_some_lt _ _ _ R) as L. cbn [length] in L.
+      split.
+      * now apply nth_rev_grow.
+      * replace (i <? S (length (b_parents b)))%nat with true by (symmetry; apply Nat.ltb_lt; lia). reflexivity.
+Qed.
+
+Lemma step_inv s o : Inv s -> Inv (fst (step repaired s o)).
+Proof.
+  intro I. destruct o; cbn [step head_static v_binit repaired].
+  - destruct (putData repaired s key body vd user conds replace timeStr) eqn:E; simpl; try exact I.
+    eapply putData_inv; eauto.
+  - destruct (st_locked s); [exact I|]. now apply putKVs_inv.
+  - destruct (deleteData repaired s key) eqn:E; simpl; try exact I. eapply deleteData_inv; eauto.
+  - destruct (st_locked s || (3 <=? kind)) eqn:U; [exact I|]. apply orb_false_elim in U as [U _].
+    destruct I as [J1 J2 J3 J4 J5 J6 J7]. cbn [fst].
+    constructor; try (cbn; assumption).
+    + cbn. intros k Hk. rewrite !mget_mset, J2 by exact Hk. reflexivity.
+    + cbn. intros b. rewrite mget_mset. destruct (kind =? k_json_schema) eqn:E.
+      * apply N.eqb_eq in E. subst kind. rewrite N.eqb_refl. auto.
+      * rewrite N.eqb_sym, E. apply J3.
+    + apply (static_stable s); [apply stable_master_head; auto | reflexivity | exact J7].
+  - destruct (st_locked s || (3 <=? kind)) eqn:U; [exact I|]. apply orb_false_elim in U as [U _].
+    destruct I as [J1 J2 J3 J4 J5 J6 J7]. cbn [fst].
+    constructor; try (cbn; assumption).
+    + cbn. intros k Hk. rewrite !mget_mdel, J2 by exact Hk. reflexivity.
+    + cbn. intros b. rewrite mget_mdel, andb_true_r. destruct (kind =? k_json_schema) eqn:E; [discriminate|].
+      rewrite N.eqb_sym, E. apply J3.
+    + apply (static_stable s); [apply stable_master_head; auto | reflexivity | exact J7].
+  - (* commit *)
+    destruct (st_locked s) eqn:U; [exact I|]. destruct I as [J1 J2 J3 J4 J5 J6 J7]. cbn [fst].
+    constructor; try (cbn; assumption).
+    apply (static_stable s); [|reflexivity | exact J7].
+    intros [a|i] v R C; unfold resolve, committed in *;
+      cbn [with_master st_branch st_head st_parents st_locked]; [|auto]. split; [exact R|].
+    rewrite U, andb_false_r, orb_false_r in C. rewrite C. reflexivity.
+  - (* newversion *)
+    destruct (st_locked s) eqn:U; [|exact I]. pose proof I as [J1 J2 J3 J4 J5 J6 J7]. cbn [fst].
+    constructor; try (cbn; assumption).
+    + cbn. constructor; [eapply minv_sorted; eauto | exact J4].
+    + apply (static_stable s); [|reflexivity | exact J7].
+      intros [a|i] v R C; unfold resolve, committed in *; cbn [with_master st_head st_parents st_locked st_branch length]; [|auto].
+      pose proof (nth_rev_some_lt _ _ _ R) as L. cbn [length] in L.
+      split.
+      * now apply nth_rev_grow.
+      * replace (a <? S (length (st_parents s)))%nat with true by (symmetry; apply Nat.ltb_lt; lia). reflexivity.
+  - now apply reload_inv.
+  - (* branch creation *)
+    destruct (st_branch s) as [b|] eqn:B; [exact I|].
+    destruct (resolve s (VM from)) as [v|] eqn:R; [|exact I].
+    destruct (committed s (VM from)) eqn:C; [|exact I]. cbn [fst].
+    pose proof (resolve_sorted _ _ _ I R) as Sv. destruct I as [J1 J2 J3 J4 J5 J6 J7].
+    constructor; try (cbn; assumption).
+    + cbn. intros b1 Hb. inversion Hb; subst. cbn. split; [exact Sv | constructor].
+    + cbn. intros m Hm. destruct (J6 m Hm) as (b0 & B0 & _). congruence.
+    + apply (static_stable s); [|reflexivity | exact J7].
+      intros [a|i] v0 R0 C0; unfold resolve, committed in *;
+        cbn [with_branch st_branch st_head st_parents st_locked]; [auto|]. rewrite B in R0. discriminate.
+  - now apply step_branch_inv.
+  - destruct I as [J1 J2 J3 J4 J5 J6 J7]. cbn [fst]. constructor; cbn; assumption.
+Qed.
+
+Lemma run_inv h : forall s s', Inv s -> run repaired s h = Ok s' -> Inv s'.
+Proof.
+  induction h as [|o r IH]; intros s s' I; simpl.
+  - intro H; apply Ok_inj in H; now subst.
+  - pose proof (step_inv s o I) as I'. destruct (step repaired s o) as [s1 [[]| |]]; simpl in I'; try discriminate; eauto.
+Qed.
+
+(* ---------- both read paths ---------- *)
+
 Section Reads.
 Variable rx : bytes -> option (bytes -> bool).
 
-Lemma read_eq s : Inv s -> forall r,
-  rres_equiv (read_mem rx repaired (st_mem s) (st_mmeta s) r) (read_store rx repaired (st_head s) r).
+(* a memdb mirroring a version answers every annotation request like the store of that version *)
+Lemma read_memdb_eq m v : MInv m (s_data v) -> forall r, is_meta_req r = false ->
+  rres_equiv (read_memdb rx repaired m r) (read_store rx repaired v r).
 Proof.
-  intros [I1 I2 I3 I4 I5 I6] r.
+  intros [I1 I2 I3 I4 I5 I7] r Hr.
   assert (Hrecs := recs_of_ids _ I2).
-  destruct r; cbn [read_mem read_store v_zero v_sel v_range repaired store_sel]; rewrite <- ?I1, ?I3.
+  destruct r; try discriminate;
+    cbn [read_memdb read_store pos_counts v_zero v_sel v_range v_ftime repaired store_sel];
+    rewrite <- ?I1, ?I3.
   - apply rres_equiv_refl.
   - apply rres_equiv_refl.
   - apply rres_equiv_refl.
   - (* fields *)
-    assert (P1 : Forall (fun p => (0 < snd p)%Z) (filter posf (m_fields (st_mem s)))).
+    assert (P1 : Forall (fun p => (0 < snd p)%Z) (filter posf (m_fields m))).
     { apply Forall_forall. intros p Hp. apply filter_In in Hp. unfold posf in Hp. now apply Z.ltb_lt. }
-    assert (ND2 : NoDup (map fst (scan_counts (m_data (st_mem s))))) by (rewrite scan_counts_from; apply nodup_scan_from; constructor).
+    assert (ND2 : NoDup (map fst (scan_counts (m_data m)))) by (rewrite scan_counts_from; apply nodup_scan_from; constructor).
     assert (P2 := allpos_forall _ ND2 (allpos_scan _ [] allpos_nil)).
     change (fun p : bytes * Z => (0 <? snd p)%Z) with posf.
     match goal with |- rres_equiv (XNames ?a) (XNames ?b) =>
-      replace a with (map fst (filter posf (m_fields (st_mem s)))) by (symmetry; exact (names_pos _ P1));
-      replace b with (map fst (scan_counts (m_data (st_mem s)))) by (symmetry; exact (names_pos _ P2)) end.
+      replace a with (map fst (filter posf (m_fields m))) by (symmetry; exact (names_pos _ P1));
+      replace b with (map fst (scan_counts (m_data m))) by (symmetry; exact (names_pos _ P2)) end.
     constructor.
     apply NoDup_Permutation; [now apply nodup_filter_keys | exact ND2 |].
     intro f. rewrite !in_keys_aget, aget_filter_pos, aget_scan, I4 by exact I5. tauto.
@@ -341,21 +607,60 @@ Proof.
   - (* query *)
     destruct ql; [apply rres_equiv_refl|]. destruct (just_bodyids (q :: ql)); [apply rres_equiv_refl|].
     rewrite Hrecs. apply rres_equiv_refl.
-  - (* metadata *)
-    destruct (3 <=? kind) eqn:E; [apply rres_equiv_refl|]. apply N.leb_gt in E. rewrite I6 by exact E. apply rres_equiv_refl.
+  - (* fieldtimes *)
+    cbn [andb]. destruct (m_ftdirty m) eqn:D; [|rewrite (I7 eq_refl)]; apply rres_equiv_refl.
+  - apply rres_equiv_refl.
+Qed.
+
+Lemma read_eq s : Inv s -> forall r,
+  rres_equiv (read_mem rx repaired s r) (read_store rx repaired (st_head s) r).
+Proof.
+  intros I r. destruct (is_meta_req r) eqn:Hr.
+  - destruct I as [J1 J2 J3 _ _ _ _]. destruct r; try discriminate; cbn [read_mem read_store].
+    + destruct (3 <=? kind) eqn:E; [apply rres_equiv_refl|]. apply N.leb_gt in E. rewrite J2 by exact E. apply rres_equiv_refl.
+    + destruct (3 <=? kind) eqn:E; [apply rres_equiv_refl|]. apply N.leb_gt in E. rewrite J2 by exact E. apply rres_equiv_refl.
+    + unfold schema_in_force. destruct (st_compiled s) as [b|] eqn:C; [rewrite (J3 b eq_refl)|]; apply rres_equiv_refl.
+  - replace (read_mem rx repaired s r) with (read_memdb rx repaired (st_mem s) r) by (destruct r; try discriminate; reflexivity).
+    apply read_memdb_eq; [apply (j_mem s I) | exact Hr].
 Qed.
 
 (* C16 mem_eq_store *)
 Theorem mem_eq_store h s : run repaired init_state h = Ok s ->
   forall r,
-    rres_equiv (read_mem rx repaired (st_mem s) (st_mmeta s) r) (read_store rx repaired (st_head s) r)
-    /\ forall s', reload repaired s = Ok s' ->
-         st_head s' = st_head s
-         /\ rres_equiv (read_mem rx repaired (st_mem s') (st_mmeta s') r) (read_store rx repaired (st_head s) r).
+    rres_equiv (read_mem rx repaired s r) (read_store rx repaired (st_head s) r)
+    /\ st_head (reload repaired s) = st_head s
+    /\ rres_equiv (read_mem rx repaired (reload repaired s) r) (read_store rx repaired (st_head s) r).
 Proof.
   intros R r. pose proof (run_inv h _ _ inv_init R) as I. split; [now apply read_eq|].
-  intros s' L. destruct (reload_inv _ _ I L) as (I' & Hh & _). split; [exact Hh|].
-  rewrite <- Hh. now apply read_eq.
+  split; [reflexivity|]. apply (read_eq (reload repaired s)). now apply reload_inv.
+Qed.
+
+(* every version, whichever db serves it (the HEAD db of master or of the second branch, a
+   read-only UUID db, or none), answers like its store *)
+Theorem refs_eq_store h s : run repaired init_state h = Ok s ->
+  forall ref v r, resolve s ref = Some v ->
+    exists x, read_ref rx repaired s ref r = Some x /\ rres_equiv x (read_store rx repaired v r).
+Proof.
+  intros R ref v r Rv. pose proof (run_inv h _ _ inv_init R) as I.
+  unfold read_ref. rewrite Rv. eexists. split; [reflexivity|].
+  assert (MH : is_master_head s ref = true -> v = st_head s).
+  { destruct ref as [a|i]; simpl; [|discriminate]. intro E. apply Nat.eqb_eq in E. subst a.
+    unfold resolve in Rv. rewrite nth_rev_head in Rv. congruence. }
+  destruct (is_meta_req r) eqn:Hr.
+  - destruct (is_master_head s ref && negb (st_locked s)) eqn:E; [|apply rres_equiv_refl].
+    apply andb_prop in E as [E _]. rewrite (MH E). now apply read_eq.
+  - destruct (static_get ref (st_static s)) as [m|] eqn:G.
+    + destruct (j_static s I ref m G) as (v' & R' & _ & M). rewrite Rv in R'. inversion R'; subst v'.
+      now apply read_memdb_eq.
+    + destruct (is_master_head s ref) eqn:E.
+      * rewrite (MH eq_refl). apply read_memdb_eq; [apply (j_mem s I) | exact Hr].
+      * destruct (is_branch_head s ref) eqn:B; [|apply rres_equiv_refl].
+        destruct (st_bmem s) as [m|] eqn:BM; [|apply rres_equiv_refl].
+        destruct (j_bmem s I m BM) as (b & Bb & M).
+        assert (v = b_head b).
+        { destruct ref as [a|i]; simpl in B; [discriminate|]. rewrite Bb in B. apply Nat.eqb_eq in B. subst i.
+          unfold resolve in Rv. rewrite Bb, nth_rev_head in Rv. congruence. }
+        subst v. now apply read_memdb_eq.
 Qed.
 
 (* the driver's comparison: after commit + newversion the parent is read through the store path,
@@ -368,8 +673,9 @@ Theorem parent_child_agree h s s2 : run repaired init_state h = Ok s -> st_locke
 Proof.
   intros R U R2 r. pose proof (run_inv h _ _ inv_init R) as I.
   simpl in R2. rewrite U in R2. simpl in R2. apply Ok_inj in R2. subst s2.
-  eexists; eexists. cbn. split; [reflexivity|]. split; [reflexivity|]. split; [|reflexivity].
-  pose proof (read_eq s I r) as E. destruct r; exact E.
+  eexists; eexists. cbn [read_version nth_error st_parents option_map st_locked with_master].
+  split; [reflexivity|]. split; [reflexivity|]. split; [|reflexivity].
+  rewrite andb_false_r. pose proof (read_eq s I r) as E. destruct r; exact E.
 Qed.
 End Reads.
 
@@ -381,9 +687,9 @@ Definition u1 : bytes := [117; 49].
 Definition u2 : bytes := [117; 50].
 Definition t0 : bytes := [84].
 Definition post_a (id : N) (v : json) (u : bytes) : op :=
-  OpPost id [(s_bodyid, JNum (Z.of_N id)); (fa, v)] true u [[]] false t0.
+  OpPost id [(s_bodyid, JNum (Z.of_N id)); (fa, v)] [] u [[]] false t0.
 Definition post_b (id : N) (v : json) (u : bytes) : op :=
-  OpPost id [(s_bodyid, JNum (Z.of_N id)); (fb, v)] true u [[]] false t0.
+  OpPost id [(s_bodyid, JNum (Z.of_N id)); (fb, v)] [] u [[]] false t0.
 
 Fixpoint nlist_eqb (a b : list N) : bool :=
   match a, b with [], [] => true | x :: a', y :: b' => (x =? y) && nlist_eqb a' b' | _, _ => false end.
@@ -391,7 +697,7 @@ Fixpoint nlist_eqb (a b : list N) : bool :=
 (* mem and store answers of variant V after history h *)
 Definition both (V : variant) (h : list op) (r : rreq) : option (rres * rres) :=
   match run V init_state h with
-  | Ok s => Some (read_mem no_rx V (st_mem s) (st_mmeta s) r, read_store no_rx V (st_head s) r)
+  | Ok s => Some (read_mem no_rx V s r, read_store no_rx V (st_head s) r)
   | _ => None
   end.
 
@@ -406,7 +712,7 @@ Lemma shipped_delete_refuted :
   /\ both shipped h_delete2 (RKeyRange [49] [57; 57]) = Some (XIds [10; 20], XIds [20]).
 Proof. vm_compute. repeat split. Qed.
 Lemma only_delete_unrepaired_refuted :
-  both (mkVar false true true true true true) h_delete2 RKeys = Some (XIds [10; 20], XIds [20]).
+  both (mkVar false true true true true true true true true) h_delete2 RKeys = Some (XIds [10; 20], XIds [20]).
 Proof. vm_compute. reflexivity. Qed.
 
 (* (b) POST {"a":1} then POST {"a":null}: the counter of "a" stays at 1 in memory *)
@@ -415,13 +721,13 @@ Definition cnt_of (f : bytes) (r : rres) : option Z :=
   match r with XCounts l => @aget bytes Z bytes_eqb f l | _ => None end.
 Lemma shipped_counter_refuted :
   option_map (fun p => (cnt_of fa (fst p), cnt_of fa (snd p))) (both shipped h_null RFieldCounts) = Some (Some 1%Z, None)
-  /\ option_map (fun p => (cnt_of fa (fst p), cnt_of fa (snd p))) (both (mkVar true false true true true true) h_null RFieldCounts) = Some (Some 1%Z, None).
+  /\ option_map (fun p => (cnt_of fa (fst p), cnt_of fa (snd p))) (both (mkVar true false true true true true true true true) h_null RFieldCounts) = Some (Some 1%Z, None).
 Proof. vm_compute. split; reflexivity. Qed.
 
 (* (e) POST 10 {"a":1}, POST 20 {"b":1}, DELETE 10: "a" is reported with count 0, fields lists "" *)
 Definition h_zero : list op := [post_a 10 (JNum 1) u1; post_b 20 (JNum 1) u1; OpDelete 10].
 Lemma zero_counter_refuted :
-  let V := mkVar true true false true true true in
+  let V := mkVar true true false true true true true true true in
   option_map (fun p => (cnt_of fa (fst p), cnt_of fa (snd p))) (both V h_zero RFieldCounts) = Some (Some 0%Z, None)
   /\ exists l l', both V h_zero RFields = Some (XNames l, XNames l') /\ In [] l /\ ~ In [] l'.
 Proof.
@@ -432,11 +738,11 @@ Qed.
 (* (d) query?fields=b and keyrangevalues?fields=a_user on the store path *)
 Definition h_two : list op := [post_a 10 (JNum 1) u1; post_b 10 (JNum 2) u2].
 Lemma store_select_refuted :
-  let V := mkVar true true true false true true in
+  let V := mkVar true true true false true true true true true in
   both V h_two (RQuery [[(fa, JNum 1)]] false [fb] (mkShow false false))
     = Some (XObjs [[(s_bodyid, JNum 10); (fb, JNum 2)]],
             XObjs [[(s_bodyid, JNum 10); (fb, JNum 2); (fa, JNum 1)]])
-  /\ both V h_two (RKeyRangeValues [48] [97] [fuser fa] (mkShow false false))
+  /\ both V h_two (RKeyRangeValues [48] [97] [fuser fa] (mkShow false false) 0)
     = Some (XKVs [(10, [(s_bodyid, JNum 10); (fuser fa, JStr u1)])], XKVs [(10, [(s_bodyid, JNum 10)])]).
 Proof. vm_compute. split; reflexivity. Qed.
 
@@ -444,29 +750,81 @@ Proof. vm_compute. split; reflexivity. Qed.
 Definition h_digits : list op := [post_a 5 (JNum 1) u1; post_a 10 (JNum 1) u1; post_a 100 (JNum 1) u1].
 Definition kv_ids (r : rres) : list N := match r with XKVs l => map fst l | XIds l => l | _ => [] end.
 Lemma store_range_refuted :
-  let V := mkVar true true true true false true in
+  let V := mkVar true true true true false true true true true in
   option_map (fun p => (kv_ids (fst p), kv_ids (snd p))) (both V h_digits (RKeyRange [49] [49; 53])) = Some ([5; 10], [10])
   /\ option_map (fun p => (kv_ids (fst p), kv_ids (snd p)))
-       (both V h_digits (RKeyRangeValues [49] [49; 53] [] (mkShow false false))) = Some ([5; 10], [10; 100]).
+       (both V h_digits (RKeyRangeValues [49] [49; 53] [] (mkShow false false) 0)) = Some ([5; 10], [10; 100]).
 Proof. vm_compute. split; reflexivity. Qed.
 
 (* (i) POST json_schema, commit, restart, newversion: GET json_schema on the child *)
 Definition h_schema : list op := [OpMetaPost 0 [123; 125]; OpCommit; OpReload; OpNewVersion].
 Lemma meta_reload_refuted :
-  both (mkVar true true true true true false) h_schema (RMeta 0) = Some (XBytes None, XBytes (Some [123; 125])).
+  both (mkVar true true true true true false true true true) h_schema (RMeta 0) = Some (XBytes None, XBytes (Some [123; 125])).
 Proof. vm_compute. reflexivity. Qed.
 
-(* a non-string *_time value panics inside storeAndUpdate (with the memdb mutex held) *)
-Lemma nonstring_time_panics V :
-  run V init_state [OpPost 1 [(s_bodyid, JNum 1); (ftime fa, JNum 5)] true u1 [[]] false t0] = Panic.
-Proof. destruct V as [[] [] [] [] [] []]; vm_compute; reflexivity. Qed.
+(* (f) fieldtimes: POST 10 {a, a_time 2020}, POST 20 {a, a_time 2022}, POST 10 {b}: the head says
+   2020, the head after a restart 2022; committed versions have no fieldtimes at all *)
+Definition y2020 : bytes := [50; 48; 50; 48].
+Definition y2022 : bytes := [50; 48; 50; 50].
+Definition h_ftimes : list op :=
+  [OpPost 10 [(s_bodyid, JNum 10); (fa, JNum 1); (ftime fa, JStr y2020)] [] u1 [[]] false t0;
+   OpPost 20 [(s_bodyid, JNum 20); (fa, JNum 1); (ftime fa, JStr y2022)] [] u1 [[]] false t0;
+   post_b 10 (JNum 1) u2].
+Definition time_of (f : bytes) (r : rres) : option bytes :=
+  match r with XTimes l => @aget bytes bytes bytes_eqb f l | _ => None end.
+Lemma fieldtimes_refuted :
+  match run interim init_state h_ftimes with
+  | Ok s => (time_of fa (read_mem no_rx interim s RFieldTimes),
+             time_of fa (read_mem no_rx interim (reload interim s) RFieldTimes),
+             read_store no_rx interim (st_head s) RFieldTimes)
+  | _ => (None, None, XPanic)
+  end = (Some y2020, Some y2022, XErr).
+Proof. vm_compute. reflexivity. Qed.
+
+(* (h) POST json_schema, DELETE json_schema: the deleted schema stays in force on the head *)
+Definition h_schdel : list op := [OpMetaPost 0 [123; 125]; OpMetaDelete 0].
+Lemma schema_delete_refuted :
+  both interim h_schdel RSchemaInForce = Some (XBytes (Some [123; 125]), XBytes None).
+Proof. vm_compute. reflexivity. Qed.
+
+(* (m) "inmemory" names branch b before it exists: the branch created afterwards is served from
+   the empty db registered under its name *)
+Definition h_bcfg : list op :=
+  [post_a 10 (JNum 1) u1; OpCommit; OpSetConfig (mkCfg true []); OpReload; OpBranch 0].
+(* (n) "inmemory" names the open head of master: its updates bypass the HEAD db of master *)
+Definition h_static_open : list op :=
+  [post_a 10 (JNum 1) u1; OpSetConfig (mkCfg false [VM 0]); OpReload; post_a 20 (JNum 1) u1; OpCommit; OpNewVersion].
+Definition ref_both (V : variant) (h : list op) (ref : vref) (r : rreq) : option (option rres * option rres) :=
+  match run V init_state h with
+  | Ok s => Some (read_ref no_rx V s ref r, option_map (fun v => read_store no_rx V v r) (resolve s ref))
+  | _ => None
+  end.
+Lemma init_registration_refuted :
+  ref_both interim h_bcfg (VB 0) RKeys = Some (Some (XIds []), Some (XIds [10]))
+  /\ ref_both interim h_static_open (VM 1) RKeys = Some (Some (XIds [10]), Some (XIds [10; 20]))
+  /\ ref_both repaired h_bcfg (VB 0) RKeys = Some (Some (XIds [10]), Some (XIds [10]))
+  /\ ref_both repaired h_static_open (VM 1) RKeys = Some (Some (XIds [10; 20]), Some (XIds [10; 20])).
+Proof. vm_compute. repeat split. Qed.
+
+(* a non-string *_time value is rejected (since the C20 repair; it used to panic with the memdb
+   mutex held) *)
+Lemma nonstring_time_rejected s :
+  step repaired s (OpPost 1 [(s_bodyid, JNum 1); (ftime fa, JNum 5)] [] u1 [[]] false t0) = (s, Err).
+Proof.
+  cbn [step head_static v_binit repaired]. unfold putData. destruct (st_locked s); [reflexivity|].
+  unfold put. destruct (schema_in_force s); reflexivity.
+Qed.
 
 (* non-vacuity of mem_eq_store: a history with every kind of request that runs to completion *)
 Definition h_sample : list op :=
   [post_a 10 (JNum 1) u1; post_b 10 (JStr [120]) u2; post_a 7 (JArr [JNum 1; JNum 2]) u1;
-   OpPostKVs [mkKV 100 [(s_bodyid, JNum 100); (fa, JNull)] true t0; mkKV 5 [(s_bodyid, JNum 5)] true t0] u2 [fa] true;
-   OpMetaPost 1 [49]; OpDelete 7; OpCommit; OpPost 3 [(s_bodyid, JNum 3)] true u1 [[]] false t0;
-   OpNewVersion; OpReload; post_a 10 JNull u2; OpMetaDelete 1; OpDelete 100].
+   OpPostKVs [mkKV 100 [(s_bodyid, JNum 100); (fa, JNull)] [] t0; mkKV 5 [(s_bodyid, JNum 5)] [] t0] u2 [fa] true;
+   OpMetaPost 1 [49]; OpDelete 7; OpCommit; OpPost 3 [(s_bodyid, JNum 3)] [] u1 [[]] false t0;
+   OpNewVersion; OpReload; post_a 10 JNull u2; OpMetaDelete 1; OpDelete 100;
+   OpBranch 0; OpOnBranch (post_b 9 (JNum 4) u1); OpSetConfig (mkCfg true [VM 0]); OpReload;
+   OpOnBranch (OpDelete 10); OpOnBranch OpCommit; OpOnBranch OpNewVersion].
 Lemma sample_runs : exists s, run repaired init_state h_sample = Ok s /\ map fst (m_data (st_mem s)) = [5; 10]
-                              /\ length (st_parents s) = 1%nat.
+                              /\ length (st_parents s) = 1%nat
+                              /\ option_map (fun m => map fst (m_data m)) (st_bmem s) = Some [5; 9; 100]
+                              /\ map fst (st_static s) = [VM 0].
 Proof. eexists. vm_compute. repeat split. Qed.
